@@ -55,7 +55,11 @@ ALPHA = 1e-10         # bath coupling of the cheap model
 EPSREL = 1e-4
 STATE_TOL = 2e-6      # |state - closed form|, calibrated: observed <= 2e-8
 FIELD_TOL = 1e-9      # Heun is exact for the field equation used (obs 1e-14)
-TEBD_TOL = 1e-6       # PT-TEBD at epsrel 1e-6, commuting gates (obs 1e-14)
+TEBD_EPSREL = 1e-10   # requested PT-TEBD truncation; at 1e-6 the truncated
+#                       gate terms add up to 2e-4 over 116 steps (a requested-
+#                       tolerance effect, gone at <= 1e-8), so the bound below
+#                       is 1e4 x epsrel with observed deviations <= 3e-11
+TEBD_TOL = 1e-6
 ULPS = 4
 MAX_VIOL = 6          # violations recorded per mechanism and case
 
@@ -788,7 +792,7 @@ def run_tebd(case):
             book.cell("tebd:with-process-tensor")
         tebd = oqupy.PtTebd(
             oqupy.AugmentedMPS([RHO0, RHO1]), chain, pts,
-            oqupy.PtTebdParameters(dt=dt, epsrel=1e-6, order=2),
+            oqupy.PtTebdParameters(dt=dt, epsrel=TEBD_EPSREL, order=2),
             start_time=start, start_step=start_step, dynamics_sites=[0, 1])
         res = tebd.compute(start_step + n, progress_type="silent")
         book.cell("api:pttebd")
